@@ -1,5 +1,6 @@
 import ExprModel.Code.Compile
 import ExprModel.VM.Step
+import ExprModel.Gen.Opcodes
 /- driver stages: `compile` (model of compiler.Compile) and `vmrun` (model of (*VM).Run) -/
 namespace ExprModel.Drv
 open ExprModel
@@ -20,7 +21,7 @@ def cfgOfSexp : Sexp → Option CompCfg
       | "int64" => some 0
       | "float64" => some 1
       | _ => none
-    pure { mapEnv := m, cast := c }
+    pure { mapEnv := m, cast := c, jumpGuard := Gen.jumpGuard }
   | _ => none
 
 /-- `(compile (cfg <mapEnv> <cast|_>) <node>)` -/
@@ -121,6 +122,8 @@ def handleVmrun : List Sexp → Sexp
   | [.atom "vmrun", budget, defects, env, prog, rx] =>
     match budget.asInt, Val.ofSexp env, progOfSexp prog with
     | some b, some env, some p =>
+      -- OpRange checks the budget before it builds the range: only an absurd budget could make it build an absurd list
+      if b > 20000000 then .list [.atom "refused", .atom "budget-too-large"] else
       let c : Cfg := { world := mkWorld (regexTable rx), env := env, budget := b, defects := defectsOfSexp defects }
       outcomeToSexp (run c p 2000000)
     | _, _, _ => .list [.atom "bad-request"]
@@ -132,6 +135,7 @@ def handleVmhist : List Sexp → Sexp
     match budget.asInt with
     | none => .list [.atom "bad-request"]
     | some b =>
+      if b > 20000000 then .list [.atom "refused", .atom "budget-too-large"] else
       let rec go : List Sexp → VM → List Sexp → List Sexp
         | [], _, acc => acc.reverse
         | .list [env, prog, rx] :: rest, s, acc =>
